@@ -293,11 +293,7 @@ def baseInfo (base : Bytes) : Option BaseInfo :=
 
 /-- `forIdRaw d id` for the entry `(id, canonical)` of the id map itself (keys of the map are distinct, so the
     lookup by `id` returns `canonical`) -/
-def forEntryRaw (d : StreamData) (id canonical : Str) : R ZoneValue :=
-  if canonical.isEmpty then .error .valueError
-  else match d.zoneFields.find? (·.1 == canonical) with
-    | none => .error .keyError
-    | some (_, field) => createZoneRaw (some d.stringPool) id field
+def forEntryRaw (d : StreamData) (id canonical : Str) : R ZoneValue := createZone d id canonical
 
 def forEntryCached (bi : Option BaseInfo) (samePool : Bool) (d : StreamData) (e : Str × Str) : R ZoneValue :=
   match bi with
@@ -306,8 +302,8 @@ def forEntryCached (bi : Option BaseInfo) (samePool : Bool) (d : StreamData) (e 
       match d.zoneFields.find? (·.1 == e.2) with
       | some (_, field) =>
         if b.okZones.any (fun z => z.1 == e.1 && z.2 == field) then .ok (.fixed default)
-        else createZoneRaw (some d.stringPool) e.1 field
-      | none => .error .keyError
+        else translate caughtAtCreateZone (createZoneRaw (some d.stringPool) e.1 field)
+      | none => .error .invalidData
     else forEntryRaw d e.1 e.2
   | none => forEntryRaw d e.1 e.2
 
